@@ -1,6 +1,6 @@
 (* GenEncoding.v - GENERATED from /repo by /verif/translator; do not edit.
-   source cssutils/util.py sha1 15fef4cf4c7c
-   source cssutils/css/cssimportrule.py sha1 1124ae29a826
+   source cssutils/util.py sha1 8753da62da0f
+   source cssutils/css/cssimportrule.py sha1 3f712878ad5b
 *)
 From Coq Require Import List NArith ZArith Bool.
 From CssV Require Import Base.Regex Base.Tokens.
@@ -59,7 +59,7 @@ Definition readurl_ladder (overrideEncoding httpEncoding : option enc) (content_
             (encoding, enctype).
 
 (* the decode block: text is passed through, bytes go through the css codec with
-   the chosen encoding; UnicodeDecodeError -> None *)
+   the chosen encoding; any failure to decode -> None *)
 Definition readurl_decoded (content_is_str decodes : bool) : bool :=
   if content_is_str then true else decodes.
 
